@@ -39,7 +39,7 @@ def expanded_source(repo, workdir):
     subprocess.run(["rm", "-rf", scratch])
     os.makedirs(scratch)
     subprocess.run(["rsync", "-a", "--exclude", "target", "--exclude", ".git", "--exclude", "fuzz",
-                    "--exclude", "js-api", "--exclude", "media", "--exclude", "benches", repo + "/", scratch + "/"], check=True)
+                    "--exclude", "js-api", "--exclude", "media", repo + "/", scratch + "/"], check=True)
     env = dict(os.environ, CARGO_NET_OFFLINE="true", CARGO_TARGET_DIR=os.path.join(workdir, "exp_target"))
     p = subprocess.run(["cargo", "+nightly", "rustc", "--lib", "--offline", "--", "-Zunpretty=expanded"],
                        cwd=scratch, env=env, capture_output=True, text=True)
